@@ -54,6 +54,27 @@ func (u *Unit) argShape(e ast.Expr, at ast.Node, depth int) string {
 					}
 					return u.argShape(d.rhs, d.node, depth+1)
 				}
+				if len(ds) >= 2 && len(ds) <= 4 && depth < 2 {
+					// several definitions reach this use: render each with the conditions it is assigned under,
+					// so that moving an assignment under another condition changes the shape
+					var alts []string
+					for _, d := range ds {
+						sh := "zero"
+						if d.rhs != nil {
+							if mentionsVar(u.Info, d.rhs, o) {
+								sh = "upd"
+							} else {
+								sh = u.argShape(d.rhs, d.node, depth+2)
+							}
+						}
+						if c := u.condContext(d.node); c != "" {
+							sh += "@" + c
+						}
+						alts = append(alts, sh)
+					}
+					sort.Strings(alts)
+					return "phi(" + strings.Join(alts, " | ") + ")"
+				}
 				if len(ds) == 0 {
 					// range variable or closure capture
 					if rs := u.rangeSource(o); rs != "" {
@@ -360,4 +381,20 @@ func loopExitsAfter(loop ast.Node, def ast.Node) bool {
 		return true
 	})
 	return res
+}
+
+// condContext renders the chain of if-conditions (outermost first) under which node n executes,
+// up to the nearest enclosing loop or literal.
+func (u *Unit) condContext(n ast.Node) string {
+	ifs := u.enclosingIfs(n)
+	var parts []string
+	for i := len(ifs) - 1; i >= 0; i-- {
+		s := ifs[i]
+		br := "if"
+		if s.Else != nil && s.Else.Pos() <= n.Pos() && n.End() <= s.Else.End() {
+			br = "else"
+		}
+		parts = append(parts, br+"("+u.argShape(s.Cond, s.Cond, 3)+")")
+	}
+	return strings.Join(parts, ",")
 }
